@@ -154,10 +154,11 @@ def spotTexts (s : Spot) : List (String × Txt) :=
   (match s.name with | some n => [("name", Txt.str n)] | none => []) ++ s.feats ++
   (match s.roi with | some r => [("ROI_N_POINTS", Txt.int r.nPoints (toString r.nPoints))] | none => [])
 
-/-- `_convert_ROI_coordinates` (the element has the attribute `ROI_N_POINTS`) -/
+/-- `_convert_ROI_coordinates` (the element has the attribute `ROI_N_POINTS`), followed by the removal
+of a `None` result in `_add_all_nodes`: a spot without coordinate text gets no `ROI_coords` attribute -/
 def convertRoi (r : Roi) (a : Attrs) : Outcome Attrs :=
   match r.pts with
-  | none => .ok (aset a "ROI_coords" .none)
+  | none => .ok a
   | some pts =>
     if r.nPoints = 0 then .exc "ZeroDivisionError"      -- len(coords) // n_points
     else .ok (aset a "ROI_coords" (.roi pts))
@@ -353,7 +354,7 @@ def columnKind (cells : List (Option Val)) : Kind :=
   else if vals.all isI then .int64
   else if vals.all isNum then .float64
   else if vals.all isS then .str
-  else if vals.all isRoi && cells.all Option.isSome &&
+  else if vals.all isRoi &&                 -- missing cells are filled with the first present polygon
           vals.all (fun v => roiShape v == roiShape (vals.headD .none)) then .roiRegular
   else if vals.all (fun v => isRoi v || v == .none) then .roiVarlen
   else .unmodelled
